@@ -266,11 +266,36 @@ def _init_loop_spec():
                 engine.all_obligations.append(Obligation("loop __init__#1 body: the input's done-callback is handle_done(this operation, this input)", "LI", f,
                                            list(s3.pc), list(s3.decisions), None, ["C14", "C03"]))
         return out_cl
-    return LoopSpec(body_post=body_post)
+    def at_entry(engine, st, fr, ctx):
+        # the state in which the first callback can fire: every input is a key of fs, nothing is decided yet
+        selfv = st.envs[fr.eid]["self"]
+        sid = Val.id(selfv.t)
+        did = Val.id(st.get("fs", sid))
+        k = engine.cfg.fill_k
+        at, n = ctx["src"]["at"], ctx["n"]
+        return [("before any callback is registered: every input is a key of the operation's table and the operation is undecided", 
+                 z3.And(z3.Implies(z3.And(k >= 0, k < n), z3.Select(st.get("$mem", did), z3.Select(at, k))), st.get("done", sid) == Val.boolv(z3.BoolVal(False))))]
+    return LoopSpec(body_post=body_post, at_entry=at_entry)
+
+
+def _fill_loop_spec():
+    """loop 0 of __init__ (`for f in fs: self.fs[f] = True`): every input seen so far is a key of the (still private) dictionary."""
+    def inv(engine, st, fr, ctx):
+        selfv = st.envs[fr.eid]["self"]
+        did = Val.id(st.get("fs", Val.id(selfv.t)))
+        at, i = ctx["src"]["at"], ctx["i"]
+        j = z3.Int("j!fill")
+        k = getattr(engine.cfg, "fill_k", None)
+        out = [("every input seen so far is registered as a key", z3.ForAll([j], z3.Implies(z3.And(j >= 0, j < i), z3.Select(st.get("$mem", did), z3.Select(at, j)))))]
+        if k is not None:
+            out.append(("(instance for the arbitrary input k)", z3.Implies(z3.And(k >= 0, k < i), z3.Select(st.get("$mem", did), z3.Select(at, k)))))
+        return out
+    return LoopSpec(invariant=inv)
 
 
 def _cfg_init():
     cfg = _cfg()
+    cfg.loops[("more_executors._impl.futures.bool.BoolOperation.__init__", 0)] = _fill_loop_spec()
     cfg.loops[("more_executors._impl.futures.bool.BoolOperation.__init__", 1)] = _init_loop_spec()
     cfg.contracts["more_executors._impl.futures.bool.BoolOperation.handle_done"] = RecordCall()
     cfg.stable |= {"_WeakCallback__delegate"}     # written by its constructor, consumed by its single invocation (F3)
@@ -290,11 +315,15 @@ def _cfg_init():
 
 def _setup_init(cls_name):
     def setup(engine, st):
-        op = sym_inst(engine, st, cls_name, "op")
+        # the object under construction is fresh: private to the constructing thread until a callback registration publishes it
+        oid_ = st.alloc(cls_name)
+        st.assume(cls_of(z3.IntVal(oid_)) == engine.tag(cls_name))
+        op = Z(ref(oid_), INST(cls_name))
         fs = sym_val(engine, st, ("list", "future"), "fs")
         i, j = z3.Ints("i!fs j!fs")
         engine.cfg.bool_ops = []
         engine.cfg.owned_list = Val.id(fs.t)
+        engine.cfg.fill_k = fresh("k_input", I)
         return [op, fs], {}, {"op": op, "fs": fs}
     return setup
 
